@@ -10,10 +10,10 @@ BUILT = {
  "C02": ("property-based testing against an analytic reference: stopband tones, per-line least-squares measurement of the tone and its predicted images; exhaustive table check of calculate_cutoff",
          "Generated configurations and one tone between the stopband edge and the input Nyquist (down- and up-sampling, FFT down-sampling): every predicted output line and the remainder must be below the stated rejection (3 dB stated measurement tolerance; FFT 100 dB); the -6.02 dB point at f_cutoff; calculate_cutoff on all 12 102 (length, window) pairs (exhaustive). Exploration level.",
          "guard band of 0.25 transition half-widths above the fitted edge; interpolation term made negligible by construction"),
- "C03": ("stateful property-based testing (proptest call histories, crash-isolating worker subprocess, probing interpolator), shrinking",
+ "C03": ("stateful property-based testing (proptest call histories, crash-isolating worker subprocess, probing interpolator, shrinking) + coverage-guided fuzzing (libFuzzer/ASan target hist) in the thorough tier",
          "Generated call histories over all seven types x {f32,f64} executed against the real resampler in a worker process built with debug assertions and overflow checks: an abort, panic, Err or an out-of-range request seen by the probing interpolator is a violation. Exploration only: holds on the histories generated, no absence proof.",
          "std unsafe-precondition checks and overflow checks turn UB into aborts; the harness position model (validated against the implementation on every call) defines the benign envelope for fixed-input ratio changes; NEON unreachable on this host"),
- "C04": ("stateful property-based testing with per-step invariants and an integer reference model for the FFT adapters",
+ "C04": ("stateful property-based testing with per-step invariants and an integer reference model for the FFT adapters; libFuzzer/ASan target hist in the thorough tier",
          "Same generated histories as C03; after every step the getters, the returned (in,out) tuple and the highest frame actually written (sentinel-filled buffers from the *_allocate helpers) are checked against the statement; FFT types additionally against an independently written integer block model. Exploration level.",
          "sentinel = NaN with a payload the resamplers never produce; buffers are allocated once from input/output_buffer_allocate and never grown"),
  "C05": ("metamorphic / differential property-based testing: same input through two chunkings, variants or set_chunk_size schedules, explicit position-rounding tolerance model",
@@ -46,7 +46,7 @@ BUILT = {
  "C14": ("property-based testing against an analytic reference: centroid of a generated band-limited event vs n*ratio + output_delay(), README recipe executed literally",
          "Generated configurations of all seven types and a Gaussian event (wide enough for the passband) at a generated position; the stream is produced as the README prescribes (process loop, process_partial, flush with None); the output event must be centred at n*ratio + output_delay() within max(1,ratio)+1 frames and the trimmed clip must contain the whole event at n*ratio. Exploration level.",
          "configurations without a passband are constructed away and counted"),
- "C15": ("differential property-based testing of the kernels (AVX, SSE vs scalar vs an independently derived f64 table), NaN-poisoned surroundings for the read footprint, stream-level comparison of dispatch vs explicit kernels",
+ "C15": ("differential property-based testing and fuzzing (libFuzzer/ASan target kernel in the thorough tier) of the kernels (AVX, SSE vs scalar vs an independently derived f64 table), NaN-poisoned surroundings for the read footprint, stream-level comparison of dispatch vs explicit kernels",
          "Generated and forced (every sinc length 8..512, both sample types) kernel cases: AVX/SSE vs scalar within (L/8+4) eps sum|products|, scalar vs reference table within 64 eps, bit-identical finite results when everything outside [index,index+L) is NaN, every slice alignment; plus sinc resamplers built with new() and on each kernel fed the same stream. Exploration level.",
          "NEON not executable on this host; dispatcher expected to select AVX here"),
  "C16": ("differential property-based testing: wrapper paths vs the core call on zero-padded input; Box<dyn VecResampler> vs direct",
@@ -87,10 +87,10 @@ man = {
    "source_commits": [],
    "add_only": True,
  },
- "engines": [{"name": "rv", "path": "/verif/harness", "serves_properties": [c["property_id"] for c in checks],
+ "engines": [{"name": "rv-fuzz", "path": "/verif/harness/fuzz", "serves_properties": ["C03","C04","C10","C11","C15","C16","C17"], "kind_free_text": "cargo-fuzz (libFuzzer, AddressSanitizer, debug assertions) targets hist, kernel, twins: bytes decoded through arbitrary::Unstructured into the same cases as the proptest strategies, semantic oracles inside the target"}, {"name": "rv", "path": "/verif/harness", "serves_properties": [c["property_id"] for c in checks],
               "kind_free_text": "Rust binary: proptest TestRunner per lane (16 lanes, fixed seeds from VERIF_SEED), worker subprocesses for crash isolation, explicit oracle per property, shrinking to JSON replay files"}],
  "checks": checks,
- "notes": "All checks are property-based tests / fuzzing with explicit oracles (see DESIGN.md). Exit 0 held, 1 violation (VIOLATION line), 2 inconclusive (watchdog / health). Known findings: /verif/known_findings.json.",
+ "notes": "All checks are property-based tests / fuzzing with explicit oracles (see DESIGN.md). Thorough tiers of C03, C04, C10, C11, C15, C16, C17 add a libFuzzer + AddressSanitizer campaign (tools/fuzz.sh). Exit 0 held, 1 violation (VIOLATION line), 2 inconclusive (watchdog / health). Known findings: /verif/known_findings.json.",
  "not_applicable": [{"property_id": p, "reason": "check not built yet (work in progress; the design in DESIGN.md covers it)"} for p in ALL if p not in BUILT],
 }
 json.dump(man, open(os.path.join(ROOT, "MANIFEST.json"), "w"), indent=1)
